@@ -580,7 +580,7 @@ fn main() {
             }
         }
     }
-    let nr = if san { ctx.budget(1, 4) } else { ctx.budget(40, 800) };
+    let nr = if san { ctx.cbudget(1, 4) } else { ctx.cbudget(40, 800) };
     for k in 0..nr {
         if let Some(mut rng) = ctx.random_case() {
             let len = rng.range_usize(0, if san { 7 } else { 50 });
@@ -606,7 +606,7 @@ fn main() {
             }
         }
     }
-    let nm = if san { ctx.budget(2, 6) } else { ctx.budget(200, 4000) };
+    let nm = if san { ctx.cbudget(2, 6) } else { ctx.cbudget(200, 4000) };
     for _ in 0..nm {
         if let Some(mut rng) = ctx.random_case() {
             let len = rng.range_usize(0, 40);
